@@ -180,6 +180,10 @@ class Composite(LexicalParent[Node], HasCreator, Node, ABC):
                 # Running children will find serialized result and proceed,
                 # or raise an error because they're already running
         else:  # Start fresh
+            for node in self:
+                # Signals heard in an earlier run that ended before the round was
+                # complete (a sibling failed) must not count towards this run's rounds
+                node.signals.input.accumulate_and_run.reset()
             for node in self.starting_nodes:
                 node.run()
 
